@@ -814,7 +814,7 @@ class BaseTask(object, metaclass=abc.ABCMeta):
                     from_time = time
                 elif to_time == -1:
                     to_time = time
-                    if state == BaseTaskState.NONE or state == BaseTaskState.FINISHED:
+                    if state != BaseTaskState.READY and state != BaseTaskState.WORKING:
                         if previous_state == BaseTaskState.WORKING:
                             working_time_list.append(
                                 (from_time, (to_time - 1) - from_time + finish_margin)
